@@ -148,6 +148,24 @@ fn main() {
             });
         }
     }
+    // 1a. the machine-word boundary values x every binary operator x both ways of holding them
+    let crit: Vec<BigInt> = {
+        let p63 = num::pow(BigInt::from(2), 63);
+        let p64 = num::pow(BigInt::from(2), 64);
+        vec![
+            BigInt::from(0), BigInt::from(1), BigInt::from(-1), BigInt::from(2), BigInt::from(-2), BigInt::from(3),
+            -p63.clone(), -p63.clone() + 1, p63.clone() - 1, p63.clone(), -p63.clone() - 1, p64.clone(), -p64.clone(),
+        ]
+    };
+    for (i, a) in crit.iter().enumerate() {
+        for (j, b) in crit.iter().enumerate() {
+            for (k, op) in BIN_OPS.iter().enumerate() {
+                // literal (small when it fits) and forced-big productions alternate
+                let (ha, hb) = (((i + k) % 2) as u64, ((j + k / 2) % 2) as u64);
+                cases.push(Case { kind: "bin", op: op.to_string(), a: a.clone(), b: b.clone(), src_a: produce(a, ha), src_b: produce(b, hb) });
+            }
+        }
+    }
     // 1b. `^` with the cheap bases and every special exponent (incl. 2^31, 2^32 and beyond), both signs
     for (i, e) in specials.iter().enumerate() {
         for (j, base) in [0i64, 1, -1].iter().enumerate() {
